@@ -1,6 +1,9 @@
 import Sudachi.Proofs.Recycle
 import Sudachi.Proofs.RecycleObs
 import Sudachi.Proofs.RecycleFast
+import Sudachi.Proofs.RecycleTotal
+import Sudachi.Proofs.RecycleBridge
+import Sudachi.Props.C01
 /-!
 # C10 — Results do not depend on what a tokenizer or result list processed before
 
@@ -325,6 +328,383 @@ theorem observable_result_same_subset (proj : E → F) (m0 : Mode) (ops : List (
   obtain ⟨a1, a2, -, a4⟩ := h.2 hk
   exact ⟨by rw [a1], a2, a4⟩
 
+
+
+/-! ### the lift to the CONCRETE pipeline: `Recycle` instantiated with the phases of `Total.tokenize`
+
+`RecycleTotal.payload v lv D` (`Model/RecycleTotal.lean`) fills the recycled buffers with what the phases of
+`Total.tokenize v lv (D.cfg mode subset)` compute (start_build, plugin stack + commit, build, one position of build_lattice,
+connect_node, connect_eos, fill_top_path, resolve_best_path, word info + rewrite stage, split_path).  The payload hypotheses
+of the generic theorems are DISCHARGED for it (`RecycleTotal.payload_offsetsInRange`) or reduced to the one place where the
+field subset reaches the pipeline (`RecycleTotal.payload_fieldsFree` from `RewriteFree`, C11's statement for the split
+fields).  `RecycleTotal.report w j` = what a caller reads from list `j` as `Total`-level data (node ranges, offset tables). -/
+
+open RecycleTotal in
+/-- **concrete_tokenizer_history_free** - the property for the concrete pipeline.  `D` any configuration (input-text plugin
+stack, buffer builder, OOV provider stack, lexicon, connection matrix, word-info/rewrite stage), `v`/`lv` the probed code
+variants.  Start from a new tokenizer, run ANY history (`World.run`: set_mode / set_subset, analyses with any outcome,
+collects into reused and cross-used lists, new lists, clones, clear, split_into, lookup - each call with ANY payload, in
+particular the concrete payload of any other configuration), leaving the tokenizer in some mode with some last field request
+(the probe's mode and subset are the last `set_mode` / `set_subset` of the history).  Then analyse `text` with the concrete
+pipeline and collect into ANY existing list `j`; compare with a tokenizer created NOW for that mode and request and one new
+list.  Same outcome and, when Ok, both collects succeed and the morphemes and offset tables the two lists report are EQUAL.
+The only hypothesis left on the configuration is `hfree` (C11): the word-info/rewrite stage gives the same ranges and unit
+lengths for every subset covering the requested one.  `OffsetsInRange` is proved for the instance. -/
+theorem concrete_tokenizer_history_free (v : Total.SplitV) (lv : EditM.LenV) (D : Dict) (m0 : Mode)
+    (ops : List (Payload Elem × Op Elem)) (text : List Nat) (j : Nat)
+    (hj : j < ((World.init m0).run .fix ops).lists.length)
+    (hfree : ∀ s, Subset.le (freshSubset ((World.init m0).run .fix ops).tok.mode ((World.init m0).run .fix ops).request)
+        s.normalize = true →
+      RewriteFree D s (freshSubset ((World.init m0).run .fix ops).tok.mode ((World.init m0).run .fix ops).request)) :
+    let w := (World.init m0).run .fix ops
+    let P := payload v lv D
+    let a := w.step .fix P (.analyse (text.map .nat))
+    let f : World Elem := ((World.fresh w.tok.mode w.request).step .fix P .newList).1
+    let b := f.step .fix P (.analyse (text.map .nat))
+    a.2 = b.2 ∧
+    (a.2 = .ok → (a.1.collect j).2 = .ok ∧ (b.1.collect 0).2 = .ok ∧
+      report (a.1.collect j).1 j = report (b.1.collect 0).1 0) := by
+  intro w P a f b
+  have h := observable_result_history_free (id : Elem → Elem) m0 ops P (text.map .nat) j hj
+    (payload_offsetsInRange .fix v lv D _ _) (fun s hs => payload_fieldsFree v lv D id s _ (hfree s hs))
+  refine ⟨h.1, fun hok => ?_⟩
+  obtain ⟨h1, h2, h3⟩ := h.2 hok
+  refine ⟨h1, h2, ?_⟩
+  unfold report
+  rw [h3]
+
+open RecycleTotal in
+/-- **history_reports_new** - core of the lift: if the analysis of `text` on a NEW tokenizer (mode the history left, subset of
+a tokenizer created now for the last request; `RecycleTotal.analyseNew`) is Ok and decodes to morphemes `ms` and tables `tb`,
+then after ANY history the analysis on the recycled tokenizer is Ok, collecting into ANY existing list succeeds, and that list
+reports exactly `ms` and `tb`. -/
+theorem history_reports_new (v : Total.SplitV) (lv : EditM.LenV) (D : Dict) (m0 : Mode)
+    (ops : List (Payload Elem × Op Elem)) (text : List Nat) (j : Nat)
+    (hj : j < ((World.init m0).run .fix ops).lists.length)
+    (hfree : ∀ s, Subset.le (freshSubset ((World.init m0).run .fix ops).tok.mode ((World.init m0).run .fix ops).request)
+        s.normalize = true →
+      RewriteFree D s (freshSubset ((World.init m0).run .fix ops).tok.mode ((World.init m0).run .fix ops).request))
+    (r : Total.Result)
+    (hnew : (analyseNew v lv D ((World.init m0).run .fix ops).tok.mode
+        (freshSubset ((World.init m0).run .fix ops).tok.mode ((World.init m0).run .fix ops).request) text).2 = .ok ∧
+      morphsOf (analyseNew v lv D ((World.init m0).run .fix ops).tok.mode
+        (freshSubset ((World.init m0).run .fix ops).tok.mode ((World.init m0).run .fix ops).request) text).1 = some r.morphs ∧
+      tablesOf (analyseNew v lv D ((World.init m0).run .fix ops).tok.mode
+        (freshSubset ((World.init m0).run .fix ops).tok.mode ((World.init m0).run .fix ops).request) text).1.input = r.tables) :
+    let w := (World.init m0).run .fix ops
+    let a := w.step .fix (payload v lv D) (.analyse (text.map .nat))
+    a.2 = .ok ∧ (a.1.collect j).2 = .ok ∧ report (a.1.collect j).1 j = some (r.morphs, r.tables) := by
+  intro w a
+  have hinv := (run_inv .fix ops _ (WInv.init m0)).1
+  have hcov := run_covers .fix ops _ (Covers.init (E := Elem) m0)
+  have hok := run_listsOk .fix ops _ (ListsOk.init (E := Elem) m0)
+  have h := history_independent_requested_fields (payload v lv D) (id : Elem → Elem) w.tok w.request (text.map .nat) hinv
+    (payload_offsetsInRange .fix v lv D _ _) (payload_fieldsFree v lv D id _ _ (hfree w.tok.subset hcov))
+  rw [newTok_eq_freshFor] at h
+  obtain ⟨b1, b2, b3⟩ := hnew
+  have haok : (w.tok.analyse .fix (payload v lv D) (text.map .nat)).2 = .ok := h.1.trans b1
+  obtain ⟨o1, o2, -⟩ := h.2 haok
+  have hpa := analyse_ok_path .fix (payload v lv D) w.tok (text.map .nat) rfl haok
+  have ra := analyse_collect_result .fix (id : Elem → Elem) (payload v lv D) w (text.map .nat) j hj hok hpa
+  refine ⟨haok, ra.1, ?_⟩
+  unfold report
+  rw [ra.2]
+  simp only [Option.map_some]
+  rw [getD_map_of_obs id _ _ o1, o2]
+  unfold morphsOf at b2
+  unfold analyseNew at b2 b3
+  cases hp : ((newTok w.tok.mode (freshSubset w.tok.mode w.request)).analyse .fix (payload v lv D) (text.map .nat)).1.topPath with
+  | none => rw [hp] at b2; cases b2
+  | some p =>
+    rw [hp] at b2
+    simp only [Option.map_some, Option.some.injEq] at b2
+    simp only [Option.getD_some, List.map_id, b2]
+    show some (r.morphs, tablesOf _) = _
+    rw [show ∀ i : Input Elem, tablesOf i.view = tablesOf i from fun _ => rfl, b3]
+
+open RecycleTotal in
+/-- **history_reports_tokenize** - FULL: the recycled objects report what `Total.tokenize` computes.  After ANY history,
+whenever `Total.tokenize` - for the mode the history left and the subset of a tokenizer created now for the last field request -
+returns a result `r` for `text`, the analysis on the recycled tokenizer is Ok, collecting into ANY existing list succeeds, and
+that list reports exactly `r.morphs` and `r.tables`.  No bridge hypothesis: `RecycleTotal.bridge_ok_general` PROVES that the
+discipline model with the concrete payload on a new tokenizer computes `Total.tokenize`'s result, for every configuration
+satisfying `ConfigOk` (committed batches ≤ 65 535 bytes; well-formed buffer over the given characters). -/
+theorem history_reports_tokenize (v : Total.SplitV) (lv : EditM.LenV) (D : Dict) (m0 : Mode)
+    (ops : List (Payload Elem × Op Elem)) (text : List Nat) (j : Nat)
+    (hj : j < ((World.init m0).run .fix ops).lists.length)
+    (hfree : ∀ s, Subset.le (freshSubset ((World.init m0).run .fix ops).tok.mode ((World.init m0).run .fix ops).request)
+        s.normalize = true →
+      RewriteFree D s (freshSubset ((World.init m0).run .fix ops).tok.mode ((World.init m0).run .fix ops).request))
+    (hcfg : ConfigOk lv D text)
+    (r : Total.Result)
+    (htok : Total.tokenize v lv (D.cfg ((World.init m0).run .fix ops).tok.mode
+      (freshSubset ((World.init m0).run .fix ops).tok.mode ((World.init m0).run .fix ops).request)) text = .ok r) :
+    let w := (World.init m0).run .fix ops
+    let a := w.step .fix (payload v lv D) (.analyse (text.map .nat))
+    a.2 = .ok ∧ (a.1.collect j).2 = .ok ∧ report (a.1.collect j).1 j = some (r.morphs, r.tables) :=
+  history_reports_new v lv D m0 ops text j hj hfree r (bridge_ok_of_config v lv D _ _ text hcfg r htok)
+
+open RecycleTotal in
+/-- the same from the Boolean `Bridge` (what the driver evaluates on every analysis of every `hpipe` line) instead of
+`ConfigOk` -/
+theorem history_reports_tokenize_of_bridge (v : Total.SplitV) (lv : EditM.LenV) (D : Dict) (m0 : Mode)
+    (ops : List (Payload Elem × Op Elem)) (text : List Nat) (j : Nat)
+    (hj : j < ((World.init m0).run .fix ops).lists.length)
+    (hfree : ∀ s, Subset.le (freshSubset ((World.init m0).run .fix ops).tok.mode ((World.init m0).run .fix ops).request)
+        s.normalize = true →
+      RewriteFree D s (freshSubset ((World.init m0).run .fix ops).tok.mode ((World.init m0).run .fix ops).request))
+    (hbridge : Bridge v lv D ((World.init m0).run .fix ops).tok.mode
+      (freshSubset ((World.init m0).run .fix ops).tok.mode ((World.init m0).run .fix ops).request) text)
+    (r : Total.Result)
+    (htok : Total.tokenize v lv (D.cfg ((World.init m0).run .fix ops).tok.mode
+      (freshSubset ((World.init m0).run .fix ops).tok.mode ((World.init m0).run .fix ops).request)) text = .ok r) :
+    let w := (World.init m0).run .fix ops
+    let a := w.step .fix (payload v lv D) (.analyse (text.map .nat))
+    a.2 = .ok ∧ (a.1.collect j).2 = .ok ∧ report (a.1.collect j).1 j = some (r.morphs, r.tables) :=
+  history_reports_new v lv D m0 ops text j hj hfree r (bridge_ok v lv D _ _ text hbridge r htok)
+
+open RecycleTotal in
+/-- **history_outcome_is_tokenize** - the OUTCOME side of the lift (C03's subject): after ANY history the analysis of `text`
+on the recycled tokenizer ends in the outcome class of `Total.tokenize` for the mode the history left and the subset of a
+tokenizer created now - Ok, `InputTooLong`, `EosBosDisconnect`, another `Err`, or a panic - so "`Total.tokenize` does not
+panic / succeeds within the limits" (C03 `tokenize_total`) transfers to every analysis of every history.  Same hypotheses
+as `history_reports_tokenize`. -/
+theorem history_outcome_is_tokenize (v : Total.SplitV) (lv : EditM.LenV) (D : Dict) (m0 : Mode)
+    (ops : List (Payload Elem × Op Elem)) (text : List Nat)
+    (hfree : ∀ s, Subset.le (freshSubset ((World.init m0).run .fix ops).tok.mode ((World.init m0).run .fix ops).request)
+        s.normalize = true →
+      RewriteFree D s (freshSubset ((World.init m0).run .fix ops).tok.mode ((World.init m0).run .fix ops).request))
+    (hbridge : Bridge v lv D ((World.init m0).run .fix ops).tok.mode
+      (freshSubset ((World.init m0).run .fix ops).tok.mode ((World.init m0).run .fix ops).request) text) :
+    let w := (World.init m0).run .fix ops
+    (w.step .fix (payload v lv D) (.analyse (text.map .nat))).2 =
+      classOf (Total.tokenize v lv (D.cfg w.tok.mode (freshSubset w.tok.mode w.request)) text) := by
+  intro w
+  have hinv := (run_inv .fix ops _ (WInv.init m0)).1
+  have hcov := run_covers .fix ops _ (Covers.init (E := Elem) m0)
+  have h := history_independent_requested_fields (payload v lv D) (id : Elem → Elem) w.tok w.request (text.map .nat) hinv
+    (payload_offsetsInRange .fix v lv D _ _) (payload_fieldsFree v lv D id _ _ (hfree w.tok.subset hcov))
+  rw [newTok_eq_freshFor] at h
+  show (w.tok.analyse .fix (payload v lv D) (text.map .nat)).2 = _
+  rw [h.1]
+  cases ht : Total.tokenize v lv (D.cfg w.tok.mode (freshSubset w.tok.mode w.request)) text with
+  | ok r => exact (bridge_ok v lv D _ _ text hbridge r ht).1
+  | err k =>
+    have := bridge_fail v lv D _ _ text hbridge (fun r hr => by rw [ht] at hr; cases hr)
+    rw [ht] at this; exact this
+  | panic wh =>
+    have := bridge_fail v lv D _ _ text hbridge (fun r hr => by rw [ht] at hr; cases hr)
+    rw [ht] at this; exact this
+
+open RecycleTotal in
+/-- **recycled_too_long_rejected** - an instance of the lift WITHOUT the bridge hypothesis (`RecycleTotal.bridge_tooLong` proves
+it for every configuration): after ANY history, whatever the recycled buffers hold, a text above 49 149 bytes is rejected with
+`InputTooLong` by the concrete pipeline - as `Total.tokenize` and a new tokenizer do. -/
+theorem recycled_too_long_rejected (v : Total.SplitV) (lv : EditM.LenV) (D : Dict) (m0 : Mode)
+    (ops : List (Payload Elem × Op Elem)) (text : List Nat) (hlong : text.length > EditM.MAX_LENGTH)
+    (hfree : ∀ s, Subset.le (freshSubset ((World.init m0).run .fix ops).tok.mode ((World.init m0).run .fix ops).request)
+        s.normalize = true →
+      RewriteFree D s (freshSubset ((World.init m0).run .fix ops).tok.mode ((World.init m0).run .fix ops).request)) :
+    (((World.init m0).run .fix ops).step .fix (payload v lv D) (.analyse (text.map .nat))).2 = .err .tooLong := by
+  have h := history_outcome_is_tokenize v lv D m0 ops text hfree (bridge_tooLong v lv D _ _ text hlong)
+  simp only at h
+  rw [h]
+  have ht : ∀ m s, Total.tokenize v lv (D.cfg m s) text = .err "TooLong" := by
+    intro m s
+    unfold Total.tokenize EditM.startBuild
+    rw [if_pos hlong]
+  rw [ht]
+  decide
+
+open RecycleTotal in
+/-- **lifted** - the corollary schema.  ANY predicate `Φ` of (configuration, mode, text, result) that holds of
+`Total.tokenize` - i.e. of one analysis on a new tokenizer - holds of what EVERY analysis in EVERY history reports: the
+theorems stated for one analysis (C01 `tokens_partition_original`, C02 optimality, C03 totality of the accessors, C07, C09,
+C13, C14 as far as they speak about `Total.tokenize`'s result) transfer verbatim to long-lived tokenizers and reused lists. -/
+theorem lifted (Φ : Total.Cfg → Mode → List Nat → Total.Result → Prop)
+    (v : Total.SplitV) (lv : EditM.LenV) (D : Dict) (m0 : Mode)
+    (ops : List (Payload Elem × Op Elem)) (text : List Nat) (j : Nat)
+    (hj : j < ((World.init m0).run .fix ops).lists.length)
+    (hfree : ∀ s, Subset.le (freshSubset ((World.init m0).run .fix ops).tok.mode ((World.init m0).run .fix ops).request)
+        s.normalize = true →
+      RewriteFree D s (freshSubset ((World.init m0).run .fix ops).tok.mode ((World.init m0).run .fix ops).request))
+    (hcfg : ConfigOk lv D text)
+    (hΦ : ∀ r, Total.tokenize v lv (D.cfg ((World.init m0).run .fix ops).tok.mode
+        (freshSubset ((World.init m0).run .fix ops).tok.mode ((World.init m0).run .fix ops).request)) text = .ok r →
+      Φ (D.cfg ((World.init m0).run .fix ops).tok.mode
+        (freshSubset ((World.init m0).run .fix ops).tok.mode ((World.init m0).run .fix ops).request))
+        ((World.init m0).run .fix ops).tok.mode text r)
+    (r : Total.Result)
+    (htok : Total.tokenize v lv (D.cfg ((World.init m0).run .fix ops).tok.mode
+      (freshSubset ((World.init m0).run .fix ops).tok.mode ((World.init m0).run .fix ops).request)) text = .ok r) :
+    let w := (World.init m0).run .fix ops
+    let a := w.step .fix (payload v lv D) (.analyse (text.map .nat))
+    a.2 = .ok ∧ (a.1.collect j).2 = .ok ∧
+    ∃ ms tb, report (a.1.collect j).1 j = some (ms, tb) ∧
+      Φ (D.cfg w.tok.mode (freshSubset w.tok.mode w.request)) w.tok.mode text ⟨tb, ms⟩ := by
+  intro w a
+  obtain ⟨h1, h2, h3⟩ := history_reports_tokenize v lv D m0 ops text j hj hfree hcfg r htok
+  exact ⟨h1, h2, r.morphs, r.tables, h3, hΦ r htok⟩
+
+open RecycleTotal Total Partition Oov EditM in
+/-- **recycled_tokens_partition_original** - `lifted` at C01: after ANY history, the morphemes a reused list reports for a
+text are a partition of the ORIGINAL text with every accessor defined (the conclusion of `C01.tokens_partition_original`,
+under its hypotheses on the configuration `D.cfg mode subset`), whenever the pipeline returns a result for the text. -/
+theorem recycled_tokens_partition_original (lv : LenV) (D : Dict) (m0 : Recycle.Mode)
+    (ops : List (Payload Elem × Op Elem)) (orig : List Nat) (j : Nat)
+    (hj : j < ((World.init m0).run .fix ops).lists.length)
+    (hfree : ∀ s, Subset.le (freshSubset ((World.init m0).run .fix ops).tok.mode ((World.init m0).run .fix ops).request)
+        s.normalize = true →
+      RewriteFree D s (freshSubset ((World.init m0).run .fix ops).tok.mode ((World.init m0).run .fix ops).request))
+    (hshort : ∀ l0, startBuild orig = some l0 → ShortRun lv D.inputPlugins l0)
+    (cfg : Cfg)
+    (hcfg : cfg = D.cfg ((World.init m0).run .fix ops).tok.mode
+      (freshSubset ((World.init m0).run .fix ops).tok.mode ((World.init m0).run .fix ops).request))
+    (horig : BoOf orig 0)
+    (hplug : ∀ p ∈ cfg.inputPlugins, PluginOk orig p)
+    (hutf : ∀ l0 l chars, startBuild orig = some l0 → rewriteInput lv cfg.inputPlugins l0 = .ok l →
+      Wire.utf8Decode (textOf l) = some chars → chars.length = nchars (textOf l))
+    (rvar : Oov.Variant) (bowFix : Bool) (tab : List (Nat × Nat))
+    (hmk : ∀ chars, Oov.mkBufV rvar bowFix tab chars = some (cfg.mkBuf chars))
+    (hrowsz : ∀ chars nodes, Reaches lv cfg orig chars → Oov.buildLattice cfg.providers cfg.lex (cfg.mkBuf chars) = .ok nodes →
+      ∀ e, (nodes.map toVit).countP (fun n => n.e == e) ≤ 65535)
+    (hrew : ∀ (tb2c tc2b : List Nat) (nc nb : Nat) path path', PathOk tb2c tc2b nc nb path → cfg.rewrite path = .ok path' →
+      PathOk tb2c tc2b nc nb (path'.map (·.1)))
+    (r : Result) (h : tokenize .d6fix lv cfg orig = .ok r) :
+    let w := (World.init m0).run .fix ops
+    let a := w.step .fix (payload .d6fix lv D) (.analyse (orig.map .nat))
+    a.2 = .ok ∧ (a.1.collect j).2 = .ok ∧
+    ∃ ms tb, report (a.1.collect j).1 j = some (ms, tb) ∧
+      ((textOf tb = [] ∧ ms = []) ∨
+       (textOf tb ≠ [] ∧ ms ≠ [] ∧ ∃ acs, accessAll orig ⟨tb, ms⟩ = .ok acs ∧
+         IsPartition orig (acs.map (fun a => (a.b, a.e))) ∧
+         ∀ a ∈ acs, a.sb = a.b ∧ a.se = a.e ∧ a.bc = nchars (orig.take a.b) ∧ a.ec = nchars (orig.take a.e))) := by
+  intro w a
+  subst hcfg
+  have hc : ConfigOk lv D orig :=
+    ⟨hshort, fun chars => (mkBufV_ok rvar bowFix tab chars _ (hmk chars)).1,
+     fun chars => (mkBufV_ok rvar bowFix tab chars _ (hmk chars)).2.2⟩
+  obtain ⟨h1, h2, h3⟩ := history_reports_tokenize .d6fix lv D m0 ops orig j hj hfree hc r h
+  refine ⟨h1, h2, r.morphs, r.tables, h3, ?_⟩
+  exact C01.tokens_partition_original lv _ orig horig hplug hutf rvar bowFix tab hmk hrowsz hrew r h
+
+
+/-! #### non-vacuity of the hypotheses of the concrete theorems -/
+
+/-- a configuration whose word-info stage is NOT independent of the field subset: a two-character token gets its A units
+only when the split field is loaded -/
+def tinyDict : RecycleTotal.Dict :=
+  { inputPlugins := [], mkBuf := fun cs => ⟨cs, cs.map (fun _ => 1), cs.map (fun _ => 1), cs.map (fun _ => true)⟩,
+    providers := [.simple ⟨0, 0, 100, 0⟩],
+    lex := [⟨[97], 0, 0, 5⟩, ⟨[97, 98], 0, 0, 5⟩], conn := fun _ _ => 10,
+    rewrite := fun m s p => .ok (p.map (fun n => (n, if m = .A ∧ s.splitA = true ∧ n.ec = n.bc + 2 then [1, 1] else []))) }
+
+open RecycleTotal in
+/-- `hj`, `hfree`, `hbridge`, `htok` of `concrete_tokenizer_history_free` / `history_reports_tokenize(_of_bridge)` /
+`history_outcome_is_tokenize` / `lifted` hold
+together on the history of `subset_monotone_counterexample` (`new list; set_subset(POS); set_mode(A)`): the list exists;
+EVERY subset covering the fresh tokenizer's has the split field, so the stage cannot tell it from the fresh one (`hfree`) -
+although the stage does distinguish subsets in general; the bridge holds for the probe (here the empty text; a text with a lattice is the next example, and the
+driver evaluates `bridgeHolds` on every analysis of every `hpipe` line); `Total.tokenize` returns a result. -/
+example :
+    let P := payload .d6fix .final tinyDict
+    let ops : List (Payload Elem × Op Elem) :=
+      [(P, .newList), (P, .setSubset { Subset.empty with pos := true }), (P, .setMode .A)]
+    let w := (World.init .C).run .fix ops
+    0 < w.lists.length ∧ w.tok.subset ≠ freshSubset w.tok.mode w.request ∧
+    (∀ s, Subset.le (freshSubset w.tok.mode w.request) s.normalize = true →
+      RewriteFree tinyDict s (freshSubset w.tok.mode w.request)) ∧
+    ¬ RewriteFree tinyDict Subset.empty Subset.all ∧
+    Bridge .d6fix .final tinyDict w.tok.mode (freshSubset w.tok.mode w.request) [] ∧
+    ∃ r, Total.tokenize .d6fix .final (tinyDict.cfg w.tok.mode (freshSubset w.tok.mode w.request)) [] = .ok r := by
+  intro P ops w
+  have hm : w.tok.mode = .A := by decide
+  have hf : freshSubset w.tok.mode w.request = ⟨false, true, true, false, false, false, true, false, false, false⟩ := by
+    decide
+  have u0 : Wire.utf8Decode [] = some [] := by simp [Wire.utf8Decode]
+  refine ⟨by decide, by decide, ?_, ?_, ?_, ?_⟩
+  · intro s hs m p
+    rw [hf] at hs ⊢
+    rw [Subset.le_iff, Subset.normalize_fields] at hs
+    have ha : s.splitA = true := hs.2.2.2.2.2.2.1 rfl
+    simp [tinyDict, ha]
+  · intro h
+    have := h .A [⟨0, 2, 0, 2⟩]
+    simp [tinyDict, Subset.empty, Subset.all] at this
+  · rw [hf, hm]
+    unfold Bridge bridgeHolds analyseNew
+    simp [Total.tokenize, EditM.startBuild, Total.rewriteInput, tinyDict, Dict.cfg, EditM.textOf, EditM.identFrom, u0,
+      newTok, Tok.analyse, Tok.resetWith, Tok.doTokenize, Input.prepare, Input.startBuild, Input.reset, Tok.create,
+      Input.empty, payload, Input.rewriteAll, Input.build, nats, charsOf, morphsOf, tablesOf, resetPath, rangesEq, pairs,
+      rns, EditM.MAX_LENGTH, Elem.pair?]
+  · rw [hf, hm]
+    simp [Total.tokenize, EditM.startBuild, Total.rewriteInput, tinyDict, Dict.cfg, EditM.textOf, EditM.identFrom, u0,
+      EditM.MAX_LENGTH]
+
+open RecycleTotal in
+/-- `hbridge` on a text the lattice IS built for, kernel-checked: `ab` in mode A with all fields - the lattice path is `ab`,
+the A split gives `a | b`; the instance on a new tokenizer and `Total.tokenize` agree (outcome, morphemes, tables), and the
+result has two morphemes.  (`Wire.utf8Decode` is unfolded by `simp` on the concrete bytes; larger instances are evaluated by
+the driver: `sim=1` on every `hpipe` line.) -/
+example :
+    Bridge .d6fix .final tinyDict .A Subset.all [97, 98] ∧
+    (Total.morphCount (Total.tokenize .d6fix .final (tinyDict.cfg .A Subset.all) [97, 98]) = some 2) := by
+  have u : Wire.utf8Decode [97, 98] = some [97, 98] := by simp [Wire.utf8Decode]
+  constructor
+  · unfold Bridge bridgeHolds analyseNew
+    simp [Total.tokenize, EditM.startBuild, Total.rewriteInput, tinyDict, Dict.cfg, EditM.textOf, EditM.identFrom, u,
+      newTok, Tok.analyse, Tok.resetWith, Tok.doTokenize, Input.prepare, Input.startBuild, Input.reset, Tok.create,
+      Input.empty, payload, Input.rewriteAll, Input.build, nats, charsOf, morphsOf, tablesOf, resetPath, pairs, rns,
+      EditM.MAX_LENGTH, Elem.pair?, Elem.nat?, Tok.buildLattice, Lattice.reset, Lattice.empty, resetVec, pushRow, buildLoop,
+      buildStep, Lattice.hasPrev, rowAt, Lattice.insert, Lattice.connectEos, Tok.resolveAndRewrite, List.range,
+      List.range.loop, resize, applyWrites, Input.view]
+    decide
+  · simp [Total.tokenize, EditM.startBuild, Total.rewriteInput, tinyDict, Dict.cfg, EditM.textOf, EditM.identFrom, u,
+      EditM.MAX_LENGTH]
+    decide
+
+open RecycleTotal in
+/-- `hcfg` (`ConfigOk`) of `history_reports_tokenize` / `lifted` holds for `tinyDict` on every text of at most 65 535 bytes that
+decodes (here `ab`), and `Total.tokenize` returns a result there (previous example: two morphemes); `ShortRun` is also met by a
+plugin that DOES edit (inserts `!` in front of `a`). -/
+example :
+    ConfigOk .final tinyDict [97, 98] ∧
+    ShortRun .final [fun _ => .ok [⟨0, 0, [33]⟩]] (EditM.identFrom 0 [97]) := by
+  refine ⟨⟨fun _ _ => trivial, ?_, fun _ => rfl⟩, ?_⟩
+  · intro chars
+    refine ⟨by simp [tinyDict], by simp [tinyDict], by simp [tinyDict], ?_⟩
+    intro i c h
+    simp only [tinyDict, List.getElem?_map, Option.map_eq_some_iff] at h
+    obtain ⟨a, ha, rfl⟩ := h
+    have hi : i < chars.length := by
+      rcases Nat.lt_or_ge i chars.length with hlt | hge
+      · exact hlt
+      · rw [List.getElem?_eq_none_iff.mpr hge] at ha; cases ha
+    exact ⟨Nat.le_refl 1, hi⟩
+  · intro es l1 hp hc
+    cases hp
+    have e : EditM.commitV .final (EditM.identFrom 0 [97]) [⟨0, 0, [33]⟩] =
+        some (EditM.resolve (EditM.identFrom 0 [97]) [⟨0, 0, [33]⟩]) := by rfl
+    rw [e] at hc
+    cases hc
+    exact ⟨by decide, trivial⟩
+
+open RecycleTotal in
+/-- **bridge_not_unconditional** - `Bridge` is a genuine hypothesis on the configuration, not a tautology: for a configuration
+with an EMPTY OOV provider stack (rejected when a dictionary is loaded, so no tokenizer exists for it) the two models differ on
+the text `b`, which no lexicon word covers: `Total.tokenize` panics (`oov_providers.last().unwrap()` in `build_lattice`), the
+discipline model - whose candidate payload has no panic outcome - reports `EosBosDisconnect`.  With at least one provider, a
+well-formed buffer and the repaired regex provider `Oov.stepAt` never panics (`stepAt_noPanic`). -/
+theorem bridge_not_unconditional : ¬ Bridge .d6fix .final { tinyDict with providers := [] } .C Subset.all [98] := by
+  have u : Wire.utf8Decode [98] = some [98] := by simp [Wire.utf8Decode]
+  unfold Bridge bridgeHolds analyseNew
+  simp [Total.tokenize, EditM.startBuild, Total.rewriteInput, tinyDict, Dict.cfg, EditM.textOf, EditM.identFrom, u,
+    newTok, Tok.analyse, Tok.resetWith, Tok.doTokenize, Input.prepare, Input.startBuild, Input.reset, Tok.create,
+    Input.empty, payload, Input.rewriteAll, Input.build, nats, charsOf, morphsOf, tablesOf, resetPath, pairs, rns,
+    EditM.MAX_LENGTH, Elem.pair?, Elem.nat?, Tok.buildLattice, Lattice.reset, Lattice.empty, resetVec, pushRow, buildLoop,
+    buildStep, Lattice.hasPrev, rowAt, Lattice.insert, Lattice.connectEos, Tok.resolveAndRewrite, List.range,
+    List.range.loop, resize, applyWrites, Input.view]
+  decide
 
 /-! ### the Python binding -/
 
